@@ -31,6 +31,7 @@ fn total_ops(d: usize) -> Vec<Op> {
             GSpec::FromPoly(vec![(vec![1.0, 0.0], 1.0), (vec![-1.0, 0.0], 1.0), (vec![0.0, 1.0], 1.0)], true),
         ]
     };
+    gs.push(GSpec::Eliminated(Box::new(GSpec::HardTanh(0))));
     let mut ops = vec![Op::Elim];
     for g in gs.drain(..) {
         ops.push(Op::Compose(g, false));
@@ -243,6 +244,17 @@ pub fn run_case(c: &Case) -> CaseOut {
             }
             let s1 = snap(&t);
             out.add("states", 1);
+            if let Err((tag, msg)) = well_formed(&s1, None) {
+                let mut r = rec();
+                r["arena_after"] = s1.to_json();
+                out.violate(Violation::new(format!("after the history the tree is malformed: {msg}"), r).tag("kind", "malformed").tag("what", tag));
+                return out;
+            }
+            for (tag, msg) in super::c04::cache_sound(&s1).into_iter().take(1) {
+                let mut r = rec();
+                r["arena_after"] = s1.to_json();
+                out.violate(Violation::new(format!("after infeasible_elimination: {msg}"), r).tag("kind", "cache").tag("what", tag));
+            }
             for (tag, msg) in effective(&s1).into_iter().take(2) {
                 let mut r = rec();
                 r["arena_after"] = s1.to_json();
@@ -285,6 +297,13 @@ pub fn run_case(c: &Case) -> CaseOut {
                 Ok(t) => {
                     let s = snap(&t);
                     out.add("states", 1);
+                    if let Err((tag, msg)) = well_formed(&s, None) {
+                        out.violate(Violation::new(format!("distilled tree is malformed: {msg}"), json!({"network": net.to_json(), "arena": s.to_json()})).tag("kind", "malformed").tag("what", tag));
+                        return out;
+                    }
+                    for (tag, msg) in super::c04::cache_sound(&s).into_iter().take(1) {
+                        out.violate(Violation::new(format!("distilled tree: {msg}"), json!({"network": net.to_json(), "arena": s.to_json()})).tag("kind", "cache").tag("what", tag));
+                    }
                     let (fat, nre) = pattern_counts(net);
                     let nt = s.terminals().len();
                     out.add("networks_counted", 1);
